@@ -22,6 +22,22 @@ pub fn mk_error() -> crate::error::Error {
 verus! {
 
 // ---- std items without a vstd specification -----------------------------------------------------
+/// `rotate_right(k)`: element i moves to (i + k) mod len  (std documentation); panics if k > len
+pub assume_specification<T>[ <[T]>::rotate_right ](s: &mut [T], k: usize)
+    requires
+        k <= old(s)@.len(),
+    ensures
+        final(s)@ == old(s)@.subrange(old(s)@.len() - k, old(s)@.len() as int) + old(s)@.subrange(0, old(s)@.len() - k),
+;
+
+/// `rotate_left(k)`: first k elements move to the end; panics if k > len
+pub assume_specification<T>[ <[T]>::rotate_left ](s: &mut [T], k: usize)
+    requires
+        k <= old(s)@.len(),
+    ensures
+        final(s)@ == old(s)@.subrange(k as int, old(s)@.len() as int) + old(s)@.subrange(0, k as int),
+;
+
 pub assume_specification<T>[ std::cmp::min ](a: T, b: T) -> (r: T) where T: std::cmp::Ord + std::marker::Destruct
     ensures
         T::obeys_cmp_spec() ==> (r == (if b.cmp_spec(&a) == core::cmp::Ordering::Less { b } else { a })),
